@@ -571,6 +571,16 @@ def c16(tier, seed):
             extra.append({'cfg': rng.choice(['alt', 'ovl']), 'universe': 'U3', 'shape': sh, 'programs': [[rng.choice(calls)], [rng.choice(calls)]], 'mode': 'linearizable',
                           'preemption_bound': 2})
     ck.add(run_cases(prog, threads.run_concurrent_case, cases), '2 threads x 1 call on overlapping paths, every interleaving at lock granularity')
+    # the same with solver-chosen names: every relation between the names (prefix, dotted, multi-byte) is decided per schedule
+    us = UNIVERSES['USYM']()
+    scalls = [(op, v) for op in C16_OPS for v in ('n1', 'n1_n3', 'n2')]
+    spairs = [[[c1], [c2]] for i, c1 in enumerate(scalls) for c2 in scalls[i:]
+              if (c1[0] in C16_MUT or c2[0] in C16_MUT) and (c1[1] == c2[1] or {c1[1], c2[1]} == {'n1', 'n1_n3'})]
+    scases = [{'cfg': 'mem', 'universe': 'USYM', 'shape': sh, 'programs': pr, 'mode': 'linearizable'} for sh in shapes(us) for pr in spairs]
+    rng.shuffle(scases)
+    if tier == 'quick':
+        scases = scases[:160]
+    ck.add(run_cases(prog, threads.run_concurrent_case, scases), 'same with symbolic entry names (universe USYM), every interleaving')
     if extra:
         ck.add(run_cases(prog, threads.run_concurrent_case, extra), '2x2, 3x1 calls and adapters over MemoryFS (sampled programs, every interleaving)')
     ck.bounds = {'threads': '2 (quick); 2x2 and 3x1 sampled (thorough)', 'universe': 'U3 = {/a,/ab,/a/b}', 'interleaving_granularity': 'lock acquisition',
@@ -604,6 +614,14 @@ def c17(tier, seed):
             cases.append({'cfg': 'mem', 'universe': 'U4', 'shape': rng.choice(dshapes),
                           'programs': [[('create_dir_all', rng.choice(targets))] for _ in range(3)], 'mode': 'all_ok'})
     ck.add(run_cases(prog, threads.run_concurrent_case, cases), 'concurrent create_dir_all on overlapping paths, every interleaving at lock granularity')
+    ud = UNIVERSES['USYMD']()
+    dsh = [sh for sh in shapes(ud) if all(k == 'd' for _, k in sh)]
+    stargets = ['n1', 'n1_n2', 'n1_n2_n3', 'n4']
+    scases = [{'cfg': 'mem', 'universe': 'USYMD', 'shape': sh, 'programs': [[('create_dir_all', t1)], [('create_dir_all', t2)]], 'mode': 'all_ok'}
+              for sh in dsh for i, t1 in enumerate(stargets) for t2 in stargets[i:]]
+    if tier == 'quick':
+        scases = [c for c in scases if len(c['shape']) <= 1]
+    ck.add(run_cases(prog, threads.run_concurrent_case, scases), 'same on MemoryFS with symbolic component names (universe USYMD), every interleaving')
     ck.bounds = {'threads': '2 (3 sampled in thorough)', 'paths': 'depth 1..3 sharing prefixes of every length (U4)', 'initial_states': 'every subset of the prefixes existing as directories',
                  'configs': ['MemoryFS (every interleaving)', 'OverlayFS[Mem,Mem] (at most %d preemptive switches)' % (1 if tier == 'quick' else 2)] + (['AltrootFS/Mem (at most 2 preemptive switches)'] if tier != 'quick' else []),
                  'not_encoded': 'the randomised PhysicalFS stress of the quantifier (mkdir(2) atomicity is a kernel property)'}
